@@ -68,7 +68,7 @@ def check_body(ck, rid, facts, r, op, ks, num, fields, ev):
     where = "%s:%d" % (r["file"], r["line"])
     short = re.sub(r"dual::dual(_ops::\w+)?::", "", r["fn"])
     try:
-        got = ev.apply_fn(r["fn"], vals, 0)
+        got = ev.apply_fn(r["fn"], vals, 0, collapse=False)
         if op == "pow":
             want = oracle.expected(op, vals[0], None, vals[1])
         elif len(ks) == 2 and op in ("add", "sub", "mul", "div", "rem"):
@@ -136,6 +136,9 @@ def run(ck, facts, tier):
     # the gradient is observed per variable name through gradient1: its read-back rule (C17 R17.1) is a necessary condition here too
     from rules import c17
     c17.run(ck, facts, tier, only={"gradient1[Dual]"})
+    # composition to arbitrary expression trees is by induction over aligned operands: C03's alignment rules are necessary conditions here too
+    from rules import deps
+    deps.include_alignment(ck, facts, tier)
     ck.not_decided += ["IEEE rounding; the kernels f64::exp/ln/powf and statrs Normal::{cdf,inverse_cdf} are atoms", "domain edges (division by zero, log of non-positive)",
                        "composition to arbitrary expression trees follows by induction given C03's alignment rules; it is not separately evaluated"]
     ck.trusted += ["lib/oracle.py 12-row derivative table + composition formula", "lib/cel.py normaliser"]
